@@ -639,4 +639,112 @@ theorem IMap.nodup_alter (m : List (K × W)) (k : K) (d : W) (f : W → W) (h : 
       · rw [e]; exact fun e' => hne e'.symm
 
 end IMap2
+section IMap3
+variable {K W A : Type} [DecidableEq K]
+
+theorem IMap.get?_foldl_set (l : List (K × A)) (g : A → W) (hn : IMap.Nodup l) (m0 : List (K × W)) (k : K) :
+    IMap.get? (l.foldl (fun m x => IMap.set m x.1 (g x.2)) m0) k
+      = match IMap.get? l k with | some a => some (g a) | none => IMap.get? m0 k := by
+  induction l generalizing m0 with
+  | nil => rfl
+  | cons hd t ih =>
+    obtain ⟨a, b⟩ := hd
+    unfold IMap.Nodup at hn ih
+    rw [List.pairwise_cons] at hn
+    simp only [List.foldl_cons, IMap.get?_cons]
+    rw [ih hn.2, IMap.get?_set]
+    by_cases hp : k = a
+    · subst hp
+      simp only [if_true]
+      rw [IMap.get?_eq_none_of_notin t k (fun x hx e => hn.1 x hx e.symm)]
+    · simp only [hp, if_false]
+
+end IMap3
+
+theorem lastBinding_map {V V' : Type} (l : List (Nat × V)) (g : V → V') (k : Nat) :
+    lastBinding (l.map (fun kv => (kv.1, g kv.2))) k = (lastBinding l k).map g := by
+  induction l with
+  | nil => rfl
+  | cons hd t ih =>
+    obtain ⟨a, b⟩ := hd
+    simp only [List.map_cons, lastBinding, ih]
+    cases lastBinding t k with
+    | some x => rfl
+    | none => simp only [Option.map]; split <;> rfl
+
+theorem SMap.get?_map {V V' : Type} (l : List (Nat × V)) (g : V → V') (k : Nat) :
+    SMap.get? (l.map (fun kv => (kv.1, g kv.2))) k = (SMap.get? l k).map g := by
+  induction l with
+  | nil => rfl
+  | cons hd t ih =>
+    obtain ⟨a, b⟩ := hd
+    simp only [List.map_cons, SMap.get?_cons, ih]
+    split <;> rfl
+
+theorem SMap.sorted_map {V V' : Type} (l : List (Nat × V)) (g : V → V') (h : SMap.Sorted l) :
+    SMap.Sorted (l.map (fun kv => (kv.1, g kv.2))) := by
+  unfold SMap.Sorted at *
+  rw [List.pairwise_map]
+  exact h
+
+
+section
+variable {K W : Type} [DecidableEq K]
+
+theorem IMap.forall_alter (P : W → Prop) (m : List (K × W)) (k : K) (d : W) (f : W → W)
+    (h : ∀ x ∈ m, P x.2) (hf : ∀ w, P w → P (f w)) (hd : P d) :
+    ∀ x ∈ IMap.alter m k d f, P x.2 := by
+  induction m with
+  | nil => intro x hx; simp [IMap.alter] at hx; rw [hx]; exact hf d hd
+  | cons hd' t ih =>
+    obtain ⟨a, b⟩ := hd'
+    intro x hx
+    simp only [IMap.alter] at hx
+    split at hx
+    · rcases List.mem_cons.mp hx with e | hx
+      · rw [e]; exact hf b (h (a, b) (List.mem_cons_self ..))
+      · exact h x (List.mem_cons_of_mem _ hx)
+    · rcases List.mem_cons.mp hx with e | hx
+      · rw [e]; exact h (a, b) (List.mem_cons_self ..)
+      · exact ih (fun y hy => h y (List.mem_cons_of_mem _ hy)) x hx
+end
+
+theorem lastBinding_nodup {V : Type} (l : List (Nat × V)) (h : IMap.Nodup l) (k : Nat) :
+    lastBinding l k = IMap.get? l k := by
+  induction l with
+  | nil => rfl
+  | cons hd t ih =>
+    obtain ⟨a, c⟩ := hd
+    unfold IMap.Nodup at h ih
+    rw [List.pairwise_cons] at h
+    simp only [lastBinding, IMap.get?_cons, ih h.2]
+    by_cases hk : k = a
+    · subst hk
+      rw [IMap.get?_eq_none_of_notin t k (fun x hx e => h.1 x hx e.symm)]
+    · simp only [hk, if_false]
+      cases IMap.get? t k <;> rfl
+
+theorem IMap.get?_foldl_set' {V : Type} (l : List (Nat × V)) (m : List (Nat × V)) (k : Nat) :
+    IMap.get? (l.foldl (fun m kv => IMap.set m kv.1 kv.2) m) k
+      = match lastBinding l k with
+        | some x => some x
+        | none => IMap.get? m k := by
+  induction l generalizing m with
+  | nil => rfl
+  | cons hd t ih =>
+    obtain ⟨a, c⟩ := hd
+    simp only [List.foldl_cons, ih, lastBinding]
+    cases lastBinding t k with
+    | some x => rfl
+    | none =>
+      simp only [IMap.get?_set]
+      split <;> rfl
+
+theorem IMap.nodup_foldl_set {V : Type} (l : List (Nat × V)) (m : List (Nat × V)) (h : IMap.Nodup m) :
+    IMap.Nodup (l.foldl (fun m kv => IMap.set m kv.1 kv.2) m) := by
+  induction l generalizing m with
+  | nil => exact h
+  | cons hd t ih => exact ih _ (IMap.nodup_set m hd.1 hd.2 h)
+
+
 end Radix.KV
